@@ -68,6 +68,14 @@ def replay_once(binpath, pid, tier, seed, path, extra_env=None, timeout=1800):
     env['VERIF_REPLAY_DIR'] = os.path.join(B.build_root() if B.REPO != '/repo' else VERIF, 'replays', pid)
     os.makedirs(env['VERIF_REPLAY_DIR'], exist_ok=True)
     env.pop('VERIF_STATS', None)
+    # a case found while known-finding classes were excluded by construction means what it meant then: the exclusion list travels with
+    # the replay file ("#exclude a,b")
+    try:
+        for l in open(path, errors='replace').read(4096).split('\n')[:6]:
+            if l.startswith('#exclude '):
+                env['VERIF_EXCLUDE'] = l[len('#exclude '):].strip()
+    except Exception:
+        pass
     if extra_env:
         env.update(extra_env)
     rc, out, dt, to = run_proc([binpath, '--replay', path], env, timeout)
@@ -350,6 +358,8 @@ def run_property(prop, tier, seed, replay=None):
                 if rh not in bins:
                     bins.update(B.build([rh]))
             xenv = {k: (str(v[tix]) if isinstance(v, (tuple, list)) else str(v)) for k, v in s.env.items()}
+            if exclude:
+                xenv['VERIF_EXCLUDE'] = ','.join(exclude)   # the candidate was found (and shrunk) with these classes excluded by construction
             if f.get('class') == 'cpu-budget':
                 xenv['VERIF_CPU_BUDGET'] = '20'   # the case already exceeded the full budget once; the replays confirm that it reproduces
             fails, out = replay_once(bins[rh], pid, tier, seed, path, extra_env=xenv)
@@ -388,7 +398,7 @@ def run_property(prop, tier, seed, replay=None):
             try:
                 txt = open(path, errors='replace').read()
                 if not txt.startswith('#harness'):
-                    open(path, 'w').write('#harness %s\n' % (prop.corpus_harness if s.kind == 'fuzz' else s.harness) + txt)
+                    open(path, 'w').write('#harness %s\n' % (prop.corpus_harness if s.kind == 'fuzz' else s.harness) + ('#exclude %s\n' % ','.join(exclude) if exclude else '') + txt)
             except Exception:
                 pass
             violations.append((skey or finding_key_from_verdict(v2), v2, path))
